@@ -126,7 +126,34 @@ def api_case(ctx, fns):
     validate_bytes(ctx, data, repr(fns), fns, "api")
 
 
+def reuse_case(ctx, cases):
+    """several programs (distinct function names) compiled one after the other by ONE Compiler object"""
+    import io
+    import re
+    from nsl.Compiler import Compiler
+    with adapter.quiet():
+        comp = Compiler()
+    for k, case in enumerate(cases):
+        src = re.sub(r"\bw([0-9]+)\b", lambda m: "u%d_%s" % (k, m.group(1)), case.source())
+        ctx.count()
+        try:
+            with adapter.quiet():
+                res = comp.Compile(src, {"wasm": True})
+                buf = io.BytesIO()
+                res.WasmModule.WriteTo(buf)
+        except BaseException as e:
+            if isinstance(e, (KeyboardInterrupt,)):
+                raise
+            ctx.discard("refused-on-reused-compiler")
+            continue
+        ctx.label("emitted:reused-compiler-%d" % min(k, 2))
+        if not validate_bytes(ctx, buf.getvalue(), "compilation #%d on one Compiler object:\n%s" % (k + 1, src), cases, "reuse"):
+            return
+
+
 def run(R):
+    R.hyp("compiler-reuse", st.lists(genwasm.subset_case(n_inputs=0), min_size=2, max_size=3), reuse_case, examples=R.pick(40, 600))
+    R.require("emitted:reused-compiler-1")
     R.hyp("subset", genwasm.subset_case(n_inputs=0), program_case, examples=R.pick(150, 3000))
     R.hyp("near-miss", genwasm.nearmiss_case(n_inputs=0), program_case, examples=R.pick(60, 1000))
     R.hyp("all-generators", allgen.any_case(n_inputs=0), program_case, examples=R.pick(60, 1500))
